@@ -221,6 +221,14 @@ class ReadRun(object):
             status, value = "ok", None
         self.closed = "ok" if status == "ok" else value
 
+    def held_changed(self):
+        """First yielded error whose summary is no longer what it was when it was yielded, or None."""
+        for error, summary, index in self.held:
+            now = error_summary(error)
+            if now != summary:
+                return index, summary, now
+        return None
+
     def counters(self):
         if self.reader is None:
             return None
